@@ -59,6 +59,10 @@ def all_ops(kind):
                 op["before"] = before
             ops.append(op)
         ops.append({"op": "insert", "kind": kind, "rule_id": rid, "actions": A2})
+        if kind == "content":
+            # replacing a rule by one with another pattern (same id): still one rule, same place
+            ops.append({"op": "insert", "kind": kind, "rule_id": rid, "actions": A1, "pattern": "other*"})
+            ops.append({"op": "insert", "kind": kind, "rule_id": rid, "actions": A1, "pattern": "third", "after": ids_[0]})
     for rid in ids_ + [DEFAULT_ID[kind]]:
         ops.append({"op": "remove", "kind": kind, "rule_id": rid})
         ops.append({"op": "set_enabled", "kind": kind, "rule_id": rid, "enabled": True})
